@@ -48,6 +48,20 @@ def run_property(prop, tier, seed, level, deductive=(), bounded=(), enumerations
 
 
 def default_replay_cmd(path):
+    """`bin/check <id> --replay <file>`: prints the replay record; for a failing input found by a bounded run-time contract the same
+    bounded script is run again on the CURRENT tree (same tier and seed, failure cap lifted) and the exit status says whether that
+    input still fails (1) or not (0).  Records of deductive obligations carry their native replay outcome (`confirmed`)."""
+    import os
+
     d = json.load(open(path))
     print(json.dumps(d, indent=1, default=str)[:4000])
+    rr = d.get("rerun")
+    if d.get("kind") == "bounded" and rr:
+        os.environ["VERIF_FAIL_CAP"] = "1000000"
+        b = run_bounded(rr["script"], rr["tier"], rr["seed"], extra_args=rr.get("args", ()))
+        same = [f for f in b.get("failures", []) if f.get("name") == d.get("name") and f.get("input") == d.get("input")]
+        print(f"REPLAY on the current tree: input {'STILL FAILS' if same else 'no longer fails'} ({len(b.get('failures', []))} failing inputs in total, errors: {b.get('errors', [])[:2]})")
+        if same:
+            print(json.dumps(same[0], default=str)[:1500])
+        return 1 if same else 0
     return 1 if d.get("confirmed") else 0
